@@ -1,0 +1,27 @@
+//go:build verif
+
+// Package verifhook provides observation points for external verification
+// harnesses. With the "verif" build tag, Point forwards to a callback
+// installed by the harness (used to count events and to inject scheduling
+// yields between critical steps).
+package verifhook
+
+import "sync/atomic"
+
+var callback atomic.Value // func(string, []int64)
+
+// Set installs the callback (nil removes it).
+func Set(f func(name string, args []int64)) {
+	if f == nil {
+		callback.Store((func(string, []int64))(nil))
+		return
+	}
+	callback.Store(f)
+}
+
+// Point marks an observation point.
+func Point(name string, args ...int64) {
+	if f, _ := callback.Load().(func(string, []int64)); f != nil {
+		f(name, args)
+	}
+}
